@@ -490,6 +490,30 @@ def run(ctx, rep):
                           F.fns[c["members"][0]].where())
         else:
             rep.ok("C02.rec", key, "%s: %s" % (c["kind"], c["reason"]))
+    # ---------- C02.nopanic: the decode route's converter turns what the bytes may lack into errors, not panics ----------
+    import roles
+    rep.rule("C02.nopanic", "the decode route's Converter methods do not unwrap/expect a value that comes from their arguments")
+    n_np = 0
+    for name in ("convert_witness", "convert_disconnect", "convert_data", "prune_case", "visit_node"):
+        for m in roles.methods(F, "decode::DecodeFinalizer", name):
+            mi = F.inlined(m)
+            Tn = Terms(mi, transparent={k: v for k, v in fm.TRANSPARENT_CALLS.items() if k not in ("expect", "unwrap")})
+            n_np += 1
+            bad = False
+            for b in [mi] + F.closures_of(m):
+                Tb = Tn if b is mi else Terms(b, transparent={k: v for k, v in fm.TRANSPARENT_CALLS.items() if k not in ("expect", "unwrap")})
+                for cs in b.calls():
+                    if cs.name in ("expect", "unwrap") and cs.args and ("option::Option" in (cs.callee or "") or "result::Result" in (cs.callee or "")):
+                        t = Tb.operand(cs.args[0])
+                        from_param = [x for x in leaves(t) if x[0] in ("param", "parampath") and (x[1] if x[0] == "param" else x[1]) not in (1, "self")]
+                        if from_param:
+                            bad = True
+                            rep.violation("C02.nopanic", "decode::DecodeFinalizer::%s:%s" % (name, cs.name),
+                                          "%s() in the decoder's %s is applied to %s, which comes from the method's arguments, i.e. from the decoded bytes: "
+                                          "a program that lacks it makes RedeemNode::decode panic instead of returning an error" % (cs.name, name, show(t)[:160]), cs.where())
+            if not bad:
+                rep.ok("C02.nopanic", "decode::DecodeFinalizer::" + name, None)
+    rep.floor("C02.nopanic", n_np, 3)
     return FINISH
 
 
